@@ -6,6 +6,7 @@ CONSTANTS
   Retention = 1
   MinDelay = 0
   QtScale = "1"
+  T0 = 1000000
   MaxNow = 3
 INIT Init
 NEXT Next
